@@ -616,3 +616,7 @@ for _p, _r in (("C12", "R12.4"), ("C08", "R8.2")):
                                            E(LOT, "SinkhornVectorizer.transform", "                    raw_chunk = X[chunk_start:chunk_end]\n", "                    raw_chunk = X_block[chunk_start:chunk_end]\n"),
                                            E(LOT, "SinkhornVectorizer.transform", "                completed_chunks = []\n", "                completed_chunks = []\n                X_block = X[block_start:block_end]\n")],
            "block-relative positions on the block's own slice")
+
+# --- C02: configuration guard of a library transformation (mutation smoke test)
+fire("C02", "cosine-normalisation-negated-in-transform", "R2.6", E(LOT, "SinkhornVectorizer.transform", "            if metric == cosine:\n                vectors = normalize(vectors, norm=\"l2\")", "            if metric != cosine:\n                vectors = normalize(vectors, norm=\"l2\")"),
+     "transform l2-normalises the vectors exactly when the metric is not cosine; fit does the opposite")
